@@ -63,3 +63,94 @@ Proof.
 Qed.
 End ZcAtomic.
 
+
+(* ---- the zero-copy full-sync Uni channel ---- *)
+From RM Require Import ZcSolo.
+Section ZcFullSync.
+Variable N : Z.
+Hypothesis Npos : 0 < N.
+Variable M k : nat.
+Variable wake_rule : Z -> option nat.
+
+Definition zcf_fl0 := pfill fsst (fstepZ N) fstart finit (ids_upto N) 0.
+Definition zcf_q0 : ust fsst := {| ua := zcf_fl0; ub := finit; upool := fun _ => 0; uthr := fun _ => UIdle; ulog := []; uheld := fun _ => None |}.
+Definition zcf_run (cevs : list cev) : cst (ust fsst) :=
+  fold_left (cexec (ust fsst) (zstep N) zstart (uidle fsst) (ulog fsst) zrelease M k wake_rule)
+            cevs (cinit (ust fsst) k zcf_q0).
+
+Lemma fold_qexec0_fs evs s : fold_left (qexec0 fsst (fstepZ N) fstart) evs s = fold_left (fexecZ N) evs s.
+Proof. revert s. induction evs as [|e evs IH]; intros s; [reflexivity|]. cbn [fold_left]. rewrite IH. destruct e; reflexivity. Qed.
+Lemma fs_fold_repeat_comm (e : ev) n s : fold_left (fexecZ N) (repeat e n) (fexecZ N s e) = fexecZ N (fold_left (fexecZ N) (repeat e n) s) e.
+Proof. revert s. induction n as [|n IH]; intros s; [reflexivity|]. cbn [repeat fold_left]. now rewrite IH. Qed.
+Lemma fs_iter_steps n s : Nat.iter n (fun x => fstepZ N x 0%nat) s = fold_left (fexecZ N) (repeat (Step 0%nat) n) s.
+Proof.
+  induction n as [|n IH]; [reflexivity|]. cbn [Nat.iter nat_rect]. unfold Nat.iter in IH. rewrite IH. cbn [repeat fold_left].
+  rewrite fs_fold_repeat_comm. reflexivity.
+Qed.
+Lemma fs_pfill_reachable ids s : exists evs, pfill fsst (fstepZ N) fstart s ids 0 = fold_left (fexecZ N) evs s.
+Proof.
+  revert s. induction ids as [|v ids IH]; intros s; [exists []; reflexivity|].
+  cbn [pfill]. destruct (IH (Nat.iter 6 (fun x => fstepZ N x 0%nat) (fstart s 0%nat (OpPub v)))) as [evs H].
+  exists ([Start 0%nat (OpPub v)] ++ repeat (Step 0%nat) 6 ++ evs). rewrite H, fs_iter_steps, !fold_left_app. reflexivity.
+Qed.
+
+(* both components of the channel's queue are runs of the full-sync ring machine: its invariant (mutual exclusion, flag <-> holder ...) holds *)
+Theorem zcf_components_invariant cevs : FInv N (ub fsst (q _ (zcf_run cevs))) /\ FInv N (ua fsst (q _ (zcf_run cevs))).
+Proof.
+  destruct (zc_components_reachable fsst (fstepZ N) fstart fsidle flog false (fun b => ftail b - fhead b) M k wake_rule zcf_q0 cevs) as [[ea Ha] [eb Hb]].
+  assert (Ha' : ua fsst (q _ (zcf_run cevs)) = fold_left (qexec0 fsst (fstepZ N) fstart) ea (ua fsst zcf_q0)) by exact Ha.
+  assert (Hb' : ub fsst (q _ (zcf_run cevs)) = fold_left (qexec0 fsst (fstepZ N) fstart) eb (ub fsst zcf_q0)) by exact Hb.
+  split.
+  - rewrite Hb', fold_qexec0_fs. apply (finv_reachable N Npos).
+  - rewrite Ha', fold_qexec0_fs. cbn [ua zcf_q0]. unfold zcf_fl0. destruct (fs_pfill_reachable (ids_upto N) finit) as [e0 ->].
+    rewrite <- fold_left_app. apply (finv_reachable N Npos).
+Qed.
+
+Definition all_idle (x : fsst) : Prop := (forall t, fthr x t = FIdle) /\ flock x = false.
+Lemma fstp_idle_noop x t : fthr x t = FIdle -> fstepZ N x t = x.
+Proof. intros H. unfold fstepZ, fstep. now rewrite H. Qed.
+Lemma pfill_all_idle ids x : all_idle x -> all_idle (pfill fsst (fstepZ N) fstart x ids 0).
+Proof.
+  revert x. induction ids as [|v ids IH]; intros x A; [exact A|]. cbn [pfill]. apply IH. destruct A as [Ai Al].
+  destruct (fs_solo N x 0%nat (OpPub v) (Ai 0%nat) Al) as (_ & B2 & B3 & _ & Both).
+  cbn [Nat.iter nat_rect].
+  set (x2 := fstepZ N (fstepZ N (fstart x 0%nat (OpPub v)) 0%nat) 0%nat) in *.
+  assert (Hi0 : fthr x2 0%nat = FIdle) by (now apply fsidle_true).
+  rewrite !(fstp_idle_noop x2 0%nat Hi0).
+  split; [|exact B3]. intros t. destruct (Nat.eq_dec t 0) as [->|Hn]; [exact Hi0|]. rewrite (Both t Hn). apply Ai.
+Qed.
+
+Lemma ci_init : CI zcf_q0.
+Proof.
+  assert (A : all_idle zcf_fl0) by (apply pfill_all_idle; split; reflexivity).
+  intros t. unfold phase_ok. cbn [uthr zcf_q0 ua ub]. split; [apply (proj1 A)|reflexivity].
+Qed.
+
+Theorem zcf_phase_invariant cevs : CI (q _ (zcf_run cevs)).
+Proof.
+  apply (zc_q_invariant fsst (fstepZ N) fstart fsidle flog false (fun b => ftail b - fhead b) M k wake_rule CI
+           (ci_step N) ci_start ci_release zcf_q0 cevs ci_init).
+Qed.
+
+(* C20, positive half: in any state of any run of the zero-copy full-sync channel in which no thread stands between a flag CAS and the
+   flag store - every other thread is idle, parked between two operations, or SUSPENDED inside send_with_async (slot allocated, id not
+   yet published: `suspended`) - an idle thread's consume completes in 2 of its own steps, its send in at most 4, the release of a
+   handle it holds in 2: nobody waits for the suspended producer. *)
+Theorem zcf_suspended_send_blocks_nobody cevs t :
+  let s := q _ (zcf_run cevs) in
+  (forall u, holds_lock (fthr (ua _ s) u) = false /\ holds_lock (fthr (ub _ s) u) = false) ->
+  uthr _ s t = UIdle ->
+  done_with s (solo N 2 (zstart s t OpCons) t) t OpCons /\
+  (forall v, exists n, (n <= 4)%nat /\ done_with s (solo N n (zstart s t (OpPub v)) t) t (OpPub v)) /\
+  (forall id, uheld _ s t = Some id -> let s' := solo N 2 (zrelease s t) t in uthr _ s' t = UIdle /\ unlocked s' /\ ulog _ s' = ulog _ s).
+Proof.
+  intros s Hno Hi. destruct (zcf_components_invariant cevs) as [Ib Ia]. fold s in Ib, Ia.
+  assert (U : unlocked s).
+  { split.
+    - destruct (flock (ua _ s)) eqn:El; [|reflexivity]. destruct (f_free _ _ Ia El) as [u Hu]. rewrite (proj1 (Hno u)) in Hu. discriminate.
+    - destruct (flock (ub _ s)) eqn:El; [|reflexivity]. destruct (f_free _ _ Ib El) as [u Hu]. rewrite (proj2 (Hno u)) in Hu. discriminate. }
+  assert (C : comp_idle s t).
+  { pose proof (zcf_phase_invariant cevs t) as P. fold s in P. unfold phase_ok in P. rewrite Hi in P. exact P. }
+  split; [now apply solo_consume|]. split; [intros v; now apply solo_publish|]. intros id Hh. now apply (solo_release N s t id).
+Qed.
+End ZcFullSync.
